@@ -4,7 +4,8 @@ import os, sys, json, time, subprocess, hashlib, re, fcntl, glob, random, traceb
 
 VERIF = os.path.dirname(os.path.dirname(os.path.abspath(__file__)))
 REPO = os.environ.get('VERIF_REPO', '/repo')
-COQ = os.path.join(VERIF, 'coq')
+COQ = os.environ.get('VERIF_COQ') or os.path.join(VERIF, 'coq')      # a private copy for mutation runs (./mutcheck)
+OUT = os.environ.get('VERIF_OUT') or VERIF                            # where evidence/ and replays/ are written
 CASES = os.path.join(COQ, 'Cases')
 sys.path.insert(0, os.path.join(VERIF, 'py'))
 
@@ -316,10 +317,10 @@ class Ctx:
 
     # ---- reporting
     def write_replay(self, d):
-        os.makedirs(os.path.join(VERIF, 'replays'), exist_ok=True)
+        os.makedirs(os.path.join(OUT, 'replays'), exist_ok=True)
         d = dict(d); d['property'] = self.prop
         h = hashlib.sha1(json.dumps(d, sort_keys=True, default=str).encode()).hexdigest()[:10]
-        p = os.path.join(VERIF, 'replays', '%s_%s.json' % (self.prop, h))
+        p = os.path.join(OUT, 'replays', '%s_%s.json' % (self.prop, h))
         json.dump(d, open(p, 'w'), indent=1, default=str)
         return p
 
@@ -342,8 +343,8 @@ class Ctx:
         ev = {'property_id': self.prop, 'tier': self.tier, 'seed': self.seed, 'level': self.level,
               'coverage': self.cov, 'assumptions': self.assumptions, 'wall_s': round(time.time() - self.t0, 2),
               'violations': len(self.violations), 'notes': self.notes, 'known_findings_reported': self.known_hit}
-        os.makedirs(os.path.join(VERIF, 'evidence'), exist_ok=True)
-        json.dump(ev, open(os.path.join(VERIF, 'evidence', '%s.json' % self.prop), 'w'), indent=1, default=str)
+        os.makedirs(os.path.join(OUT, 'evidence'), exist_ok=True)
+        json.dump(ev, open(os.path.join(OUT, 'evidence', '%s.json' % self.prop), 'w'), indent=1, default=str)
         self.log('done: %d evaluations, %d distinct, obligations %d/%d, violations %d' % (
             self.cov['evaluations'], self.cov['distinct_nontrivial'], self.cov['discharged'], self.cov['obligations'], len(self.violations)))
         return 1 if self.violations else 0
